@@ -157,11 +157,11 @@ func zzPutScenario(focus string, k int) {
 	n := 1 + verif.Choice("entries", k)
 	var ents []interface{}
 	type exp struct {
-		c        *characteristic.Characteristic
-		hasValue bool
-		num      int
-		b        bool
-		ev       int // 0 absent, 1 true, 2 false, 3 non-bool
+		c         *characteristic.Characteristic
+		hasValue  bool
+		num       int
+		b         bool
+		ev        int // 0 absent, 1 true, 2 false, 3 non-bool
 		subBefore bool
 	}
 	exps := make([]exp, n)
@@ -184,6 +184,14 @@ func zzPutScenario(focus string, k int) {
 			case w.on.Characteristic:
 				e.b = verif.Bool("val-bool" + id)
 				ent["value"] = e.b
+				if verif.Choice("bool-as-number"+id, 2) == 1 {
+					// HAP allows 1 / 0 for a bool
+					if e.b {
+						ent["value"] = float64(1)
+					} else {
+						ent["value"] = float64(0)
+					}
+				}
 			default:
 				e.num = int(verif.U8("val-num" + id))
 				verif.Assume(e.num <= 100)
